@@ -51,7 +51,14 @@ func newPool() *pool {
 		tab := make([][]*env.Key, nParties)
 		for pa := 0; pa < nParties; pa++ {
 			for s := 0; s < nSlots; s++ {
-				tab[pa] = append(tab[pa], p.w.NewKey(pa, kt))
+				k := p.w.NewKey(pa, kt)
+				// raw legacy keys: exactly one key of the pool (party 4, slot 1) has a '#' byte after position 0, which
+				// the packager takes for a DID-document key reference; all others have none
+				for kt == env.Ed25519 && (bytes.IndexByte(k.Bytes, '#') > 0) != (pa == 4 && s == 1) {
+					k = p.w.NewKey(pa, kt)
+				}
+
+				tab[pa] = append(tab[pa], k)
 			}
 		}
 
@@ -111,6 +118,8 @@ func coqStyle(s string) string {
 		return "DidDocMulti"
 	case "raw":
 		return "RawKey"
+	case "rawhash":
+		return "RawKeyHash"
 	}
 
 	return "DidKey"
@@ -175,6 +184,18 @@ func (p *pool) run(kind string, sc Scenario, tr *hx.Trace) {
 
 			for _, r := range rcpts {
 				e.ToKeys = append(e.ToKeys, r.Ref(sc.Style))
+			}
+
+			if sc.Style == "raw" {
+				// the raw public key bytes themselves as key references (legacy profile)
+				e.ToKeys = nil
+				for _, r := range rcpts {
+					e.ToKeys = append(e.ToKeys, string(r.Bytes))
+				}
+
+				if auth {
+					e.FromKey = sender.Bytes
+				}
 			}
 
 			if !auth && !legacy {
@@ -311,6 +332,8 @@ func (p *pool) run(kind string, sc Scenario, tr *hx.Trace) {
 			fail("pack-rejects-empty-payload-multi-recipient", msg)
 		case strings.Contains(msg, "invalid CBC-HMAC key size 56"):
 			fail("pack-rejects-A256CBC-HS384-nistp-authcrypt", msg)
+		case sc.Style == "raw" && strings.Contains(msg, "resolveKeyAgreementFromDIDDoc"):
+			fail("pack-rejects-raw-key-containing-hash", msg)
 		case strings.Contains(msg, "unsupported content encrytpion algorithm"):
 			// authcrypt admits CBC-HMAC and XC20P only: documented restriction of the packer, not a failure
 		default:
@@ -323,13 +346,27 @@ func (p *pool) run(kind string, sc Scenario, tr *hx.Trace) {
 		senderN = 0
 	}
 
+	mstyle := sc.Style
+	if sc.Style == "raw" && sc.Via == "packager" {
+		ks := append([]*env.Key{}, rcpts...)
+		if auth {
+			ks = append(ks, sender)
+		}
+
+		for _, k := range ks {
+			if bytes.IndexByte(k.Bytes, '#') > 0 {
+				mstyle = "rawhash"
+			}
+		}
+	}
+
 	var rn []int
 	for _, r := range rcpts {
 		rn = append(rn, r.Name)
 	}
 
 	rec.Coq = fmt.Sprintf("{| c_cfg := mkcfg %s %s %s %s; c_viapk := %s; c_spar := %s; c_payload := %d; c_sender := %d; c_rcpts := %s; c_packed := %s; c_unp := %s |}",
-		coqPacker(sc.Packer), kt, sc.Enc, coqStyle(sc.Style), hx.CoqBool(sc.Via == "packager"), hx.CoqNList(p.partyKeys(sender.Owner)), pid, senderN,
+		coqPacker(sc.Packer), kt, sc.Enc, coqStyle(mstyle), hx.CoqBool(sc.Via == "packager"), hx.CoqNList(p.partyKeys(sender.Owner)), pid, senderN,
 		hx.CoqNList(rn), hx.CoqBool(perr == nil), hx.CoqList(coqUnp))
 	rec.Observed = obs
 
@@ -486,7 +523,7 @@ func main() {
 			for n := 1; n <= 4; n++ {
 				for _, pay := range pays {
 					via := "packager"
-					if style == "raw" {
+					if style == "raw" && (n+len(pay))%2 == 0 {
 						via = "packer"
 					}
 
@@ -503,6 +540,17 @@ func main() {
 				for n := 1; n <= 2; n++ {
 					p.run("corner", p.scenario(next(), packer, env.X25519, enc, "didkey", "packer", pay, n), tr)
 				}
+			}
+		}
+	}
+
+	// raw legacy keys through the packager: the one pool key containing '#' (party 4, slot 1) as recipient
+	for _, packer := range []string{"leg-auth", "leg-anon"} {
+		for n := 1; n <= 3; n++ {
+			for _, via := range []string{"packager", "packer"} {
+				sc := p.scenario(next(), packer, env.Ed25519, "XC20P", "raw", via, "json", n)
+				sc.Rcpts[n-1] = [2]int{4, 1}
+				p.run("corner", sc, tr)
 			}
 		}
 	}
@@ -531,7 +579,7 @@ func main() {
 			style = []string{"didkey", "raw"}[r.Intn(2)]
 			via = "packager"
 
-			if style == "raw" {
+			if style == "raw" && r.Bool() {
 				via = "packer"
 			}
 		}
